@@ -5,7 +5,11 @@ entries, times of day) observed through `bal -X T --now D`, `bal -V`, `reg -X T`
 (valuation at each posting's date), `prices` / `pricedb`, against the extracted Coq model
 (Model/Prices.v).  Oracle: Fractions recomputation written from the property text (latest price on
 or before D, reciprocal, product along the chain, unconverted when there is no price) plus the
-metamorphic reading of its last sentence (deleting every `P` line dated after D changes nothing)."""
+metamorphic reading of its last sentence (deleting every `P` line dated after D changes nothing).
+Several paths (stream `via`): price graphs with cycles observed through `bal -X T`, against the model's
+find_price_via (the path whose stalest price is freshest: Dijkstra with distance_combine = max over the ages
+of the pairs' latest prices); oracle: exhaustive over the simple paths with Fractions - the value shown must be
+the rate of SOME least-stale path (exactly that one when it is unique)."""
 import datetime, re
 from concurrent.futures import ThreadPoolExecutor
 from fractions import Fraction as F
@@ -15,10 +19,10 @@ META = dict(
     id='C10',
     level='proof',
     technique='Coq proof (price map / price graph model refined to "latest entry not after D, later insertion wins a tie", reciprocal, product along the unique path) + differential correspondence of the extracted model against ledger',
-    level_text='Theorems in coq/Properties/Properties_C10.v state, for all price histories (any number of entries, any insertion order, any moments) and all valuation moments, that the model of commodity_history_impl_t selects per commodity pair exactly the latest entry not after D (a later insertion replacing an earlier one at the same moment, nothing when every entry is later), that entries dated after D never influence an edge or a conversion, that a reversed quote is used as its reciprocal and a chain as the product along the unique path, that a converted amount is exactly price times quantity and that an amount without applicable price stays as it is; the memoising lookup equals the plain lookup for every interleaving of lookups and price recordings (so lookups made by expressions evaluated while the journal is read cannot change a report); that rests on the source fact, re-read from commodity.cc on every run (Gen/PriceMemo.v), that recording or removing a price clears the memo of every commodity. A price taken from a posting cost is dated by the date of its transaction whatever dates the posting carries; which date finalize hands to exchange() is re-read from xact.cc on every run (Gen/CostDate.v). With a default commodity declared, -V converts into it exactly as -X does (the dispatch of commodity_t::find_price on the defaulted target is re-read from commodity.cc, Gen/FindPriceDispatch.v). Under --percent a share is the quotient of two valuations made by the same rule; that both market() calls of the installed expression pass the valuation date and the -X commodity is re-read from report.cc (Gen/PercentExpr.v). The model is tied to the code by running generated journals through freshly built ledger (bal/reg -X/-V, prices, pricedb; exact num/den through the verif_rational hook) and the extracted model and comparing every row.',
-    level_note='Trusted: Coq kernel; extraction + OCaml driver and the python harness for the correspondence; GMP modelled as Q. Priced pairs form a forest (unique paths): the choice Dijkstra makes among several paths is not modelled nor claimed. Fixated lot prices ({=..}), value expressions on commodities and price download (-Q) are outside the model; a default commodity (D directive) is modelled as the target of -V.',
+    level_text='Theorems in coq/Properties/Properties_C10.v state, for all price histories (any number of entries, any insertion order, any moments) and all valuation moments, that the model of commodity_history_impl_t selects per commodity pair exactly the latest entry not after D (a later insertion replacing an earlier one at the same moment, nothing when every entry is later), that entries dated after D never influence an edge or a conversion, that a reversed quote is used as its reciprocal and a chain as the product along the unique path, that where several paths exist the lookup returns the product along a simple path of the filtered graph whose weight (the age of its stalest price) no other simple path undercuts, a strictly lightest path being taken whatever the order in which the pairs were first quoted, and coincides with the unique-path lookup when the path is unique, that a converted amount is exactly price times quantity and that an amount without applicable price stays as it is; the memoising lookup equals the plain lookup for every interleaving of lookups and price recordings (so lookups made by expressions evaluated while the journal is read cannot change a report); that rests on the source fact, re-read from commodity.cc on every run (Gen/PriceMemo.v), that recording or removing a price clears the memo of every commodity. A price taken from a posting cost is dated by the date of its transaction whatever dates the posting carries; which date finalize hands to exchange() is re-read from xact.cc on every run (Gen/CostDate.v). With a default commodity declared, -V converts into it exactly as -X does (the dispatch of commodity_t::find_price on the defaulted target is re-read from commodity.cc, Gen/FindPriceDispatch.v). Under --percent a share is the quotient of two valuations made by the same rule; that both market() calls of the installed expression pass the valuation date and the -X commodity is re-read from report.cc (Gen/PercentExpr.v). The model is tied to the code by running generated journals through freshly built ledger (bal/reg -X/-V, prices, pricedb; exact num/den through the verif_rational hook) and the extracted model and comparing every row.',
+    level_note='Trusted: Coq kernel; extraction + OCaml driver and the python harness for the correspondence; GMP modelled as Q. Where several price paths join two commodities the model takes a path whose stalest price is freshest (history.cc: Dijkstra with distance_combine = max of the price ages; re-read from the source, Gen/PathWeight.v); which of several EQUALLY stale paths the heap order of boost yields is not modelled: such rows are not compared with the model, only judged by the oracle (the rate of some least-stale path). The `oldest` bound of find_price is modelled and proved about but no report passes it. Fixated lot prices ({=..}), value expressions on commodities and price download (-Q) are outside the model; a default commodity (D directive) is modelled as the target of -V.',
     design_ref='DESIGN.md section 7 C10',
-    assumptions=['the priced commodity pairs of a journal form a forest (the quantifier of the property: an edge, a reversed edge or a simple chain)',
+    assumptions=['the priced commodity pairs of a journal form a forest (the quantifier of the property: an edge, a reversed edge or a simple chain), except in the multi-path stream, where the claim is: a least-stale path is taken, and exactly the model\'s when no second path is equally stale',
                  'commodity symbols avoid the predefined time units s/m/h',
                  'no fixated lot prices, commodity value expressions or price download'],
 )
@@ -466,6 +470,66 @@ def gen_interleaved(rng, idx):
     return j
 
 
+def gen_multipath(rng, idx):
+    """Price graphs in which two commodities are joined by SEVERAL paths: a triangle (a stale
+    direct quote against a fresher two-hop path, and the other way round), a diamond, a diamond
+    with a cross link, a square with a diagonal, the complete graph on four commodities, a
+    triangle with a tail.  Every pair is quoted 1-3 times, in either direction, mostly on days no
+    other quote uses (so that two paths rarely have the same stalest age), some with a time of
+    day; about one journal in six deliberately re-uses days (ties between paths)."""
+    j = Journal()
+    j.explicit_time = set()
+    shape = ['triangle', 'diamond', 'diamond-cross', 'square-diagonal', 'k4', 'triangle-tail', 'triangle', 'pentagon-chord'][idx % 8]
+    n = {'triangle': 3, 'diamond': 4, 'diamond-cross': 4, 'square-diagonal': 4, 'k4': 4, 'triangle-tail': 4, 'pentagon-chord': 5}[shape]
+    c = rng.sample(SYMS, n)
+    pairs = {'triangle': [(0, 2), (0, 1), (1, 2)],
+             'diamond': [(0, 1), (0, 2), (1, 3), (2, 3)],
+             'diamond-cross': [(0, 1), (0, 2), (1, 3), (2, 3), (1, 2)],
+             'square-diagonal': [(0, 1), (1, 2), (2, 3), (3, 0), (0, 2)],
+             'k4': [(0, 1), (0, 2), (0, 3), (1, 2), (1, 3), (2, 3)],
+             'triangle-tail': [(0, 1), (1, 2), (0, 2), (2, 3)],
+             'pentagon-chord': [(0, 1), (1, 2), (2, 3), (3, 4), (4, 0), (1, 3)]}[shape]
+    pairs = list(pairs)
+    rng.shuffle(pairs)                      # the order in which the pairs are first quoted = edge creation order
+    ties = idx % 6 == 5
+    pool = list(range(BASE + 2, BASE + 80))
+    rng.shuffle(pool)
+    if ties:
+        pool = [BASE + 10 * rng.randint(1, 4) for _ in range(80)]
+    elems = []
+    days = []
+    for a, b in pairs:
+        for _ in range(rng.choice([1, 1, 2, 3])):
+            day = pool.pop()
+            days.append(day)
+            x, y = (c[a], c[b]) if rng.random() < 0.5 else (c[b], c[a])
+            q, dec = rq(rng, 1, 9999)
+            tod = rng.choice([0, 0, 0, 0, 0, 1, 3600, 43200, 86399])
+            elems.append(('P', day * 86400 + tod, x, q, dec, y))
+    first = [next(e for e in elems if {e[2], e[5]} == {c[a], c[b]}) for a, b in pairs]
+    rest = [e for e in elems if e not in first]
+    rng.shuffle(rest)
+    # the first quote of each pair keeps its place in the creation order; the others go anywhere after it
+    out = list(first)
+    for e in rest:
+        lo = out.index(next(f for f in first if {f[2], f[5]} == {e[2], e[5]})) + 1
+        out.insert(rng.randint(lo, len(out)), e)
+    if rng.random() < 0.3:                  # or in any order at all
+        rng.shuffle(out)
+    hs = []
+    for x in c:
+        q, dec = rq(rng, 1, 99999, (0, 0, 1, 2, 3))
+        hs.append((q, dec, x))
+    out.insert(rng.randrange(len(out) + 1), ('H', BASE - 20, hs, 0))
+    j.elems = out
+    j.comms = c
+    j.days = sorted(set(days))
+    j.shape = 'multipath-' + shape + ('-ties' if ties else '')
+    j.cand = sorted({d + o for d in j.days for o in (-1, 0, 1, 2)} | {BASE + 100, BASE + 400})
+    j.v_days = j.cand
+    return j
+
+
 # ---- the oracle: the property text in Fractions ----------------------------------------------
 class Undetermined(Exception):
     pass
@@ -508,6 +572,41 @@ def o_rate(facts, a, b, D):
             rate /= q
         y = x
     return rate
+
+
+def o_via(facts, a, b, D, count_only=False):
+    """Several conversion paths: every pair offers its latest price not after D; a path is as stale
+    as its stalest price; ledger must convert along a path that is least stale.  Exhaustive over
+    the simple paths a .. b.  -> (number of simple paths, least staleness, {rate of every least
+    stale path}, {rate of every simple path}) or None when no path exists"""
+    pairs = {}
+    for when, s_, q, t in facts:
+        if when <= D and s_ != t:
+            key = frozenset((s_, t))
+            cur = pairs.get(key)
+            if cur is None or cur[0] <= when:
+                pairs[key] = (when, s_, q, t)
+    found = []
+
+    def walk(x, seen, stale, rate):
+        if x == b:
+            found.append((stale, rate))
+            return
+        for key, (when, s_, q, t) in pairs.items():
+            if x in key:
+                (y,) = key - {x}
+                if y in seen:
+                    continue
+                if s_ != x and q == 0:
+                    raise Undetermined()
+                walk(y, seen | {y}, max(stale, D - when), rate * q if s_ == x else rate / q)
+    walk(a, {a}, 0, F(1))
+    if count_only:
+        return len(found)
+    if not found:
+        return None
+    least = min(st for st, r in found)
+    return len(found), least, {r for st, r in found if st == least}, {r for st, r in found}
 
 
 def o_convert(facts, holdings, tgt, D):
@@ -599,7 +698,7 @@ def pct_rows(qr):
 
 def run_query(qr):
     j = qr.j
-    if qr.kind in ('bal', 'balmemo', 'balfut'):
+    if qr.kind in ('bal', 'balmemo', 'balfut', 'via'):
         v = getattr(qr, 'variant', None)
         shape = {'tree': [], 'depth1': ['--depth', '1'], 'unround': ['--flat', '--unround']}.get(v, ['--flat'])
         args = ['-f', qr.path, 'bal'] + shape + ['--empty'] + (['-X', qr.tgt] if qr.tgt else ['-V']) + \
@@ -645,7 +744,7 @@ def canon_impl(qr):
                 q = d.get('%', F(0))
                 rows[a] = '%d/%d' % (q.numerator, q.denominator)
             return rows
-        if qr.kind in ('bal', 'balmemo', 'balfut'):
+        if qr.kind in ('bal', 'balmemo', 'balfut', 'via'):
             rows = {}
             for l in lines:
                 a, v = l.split('|', 1)
@@ -676,11 +775,15 @@ def canon_model(qr, line):
     if line.startswith('!'):
         return 'E:model ' + line
     parts = body.split(' / ') if body else []
-    if qr.kind in ('bal', 'balmemo', 'balfut', 'pct'):
+    if qr.kind in ('bal', 'balmemo', 'balfut', 'pct', 'via'):
         rows = {}
         for p in parts:
             a, v = p.split('=', 1)
             rows[a] = v
+        if qr.kind == 'via':
+            # name=balance~tie: where two least-weight paths exist the model's choice between them is not ledger's
+            qr.tie_rows = {a for a, v in rows.items() if v.endswith('~1')}
+            rows = {a: v.rsplit('~', 1)[0] for a, v in rows.items()}
         if qr.kind == 'pct':
             # name=share~parent's value: a parent value that is not zero but may print as zero at
             # its commodity's display precision is tested by ledger with is_zero (display precision,
@@ -704,6 +807,10 @@ def model_line(qr, n):
     if qr.kind in ('bal', 'balfut'):
         acc = accounts_of(j, getattr(qr, 'variant', None))
         q = ['bal', t, qr.day * 86400] + [[a] + hold_sx(hs) for a, hs in sorted(acc.items())]
+        return lib.sx(['case', 'q%d' % n, j.items_sx(), q])
+    if qr.kind == 'via':
+        acc = accounts_of(j)
+        q = ['via', t, qr.day * 86400] + [[a] + hold_sx(hs) for a, hs in sorted(acc.items())]
         return lib.sx(['case', 'q%d' % n, j.items_sx(), q])
     if qr.kind == 'balmemo':
         acc = accounts_of(j)
@@ -733,6 +840,45 @@ def judge(qr, ci):
                 return []
             return [('percent-X:error', 'every amount has a price in %s, yet --percent -X fails' % qr.tgt, qr.err, 'shares')]
         return [('%s:error' % qr.kind, 'ledger failed on a valid journal', ci, 'a report')]
+    if qr.kind == 'via':
+        D = qr.day * 86400
+        for a, hs in accounts_of(j).items():
+            want = {}
+            exact = True
+            got = unshow(ci.get(a, ''))
+            for q, c, lot in hs:
+                if c == qr.tgt:
+                    want[c] = want.get(c, 0) + q
+                    continue
+                r = o_via(facts, c, qr.tgt, D)
+                if r is None:
+                    want[c] = want.get(c, 0) + q
+                elif len(r[2]) == 1:
+                    want[qr.tgt] = want.get(qr.tgt, 0) + q * next(iter(r[2]))
+                else:
+                    exact = False
+                    if len(hs) == 1 and got not in [{qr.tgt: q * x} for x in r[2]]:
+                        other = got in [{qr.tgt: q * x} for x in r[3]]
+                        bad.append(('via-X:staler-path-taken' if other else 'via-X:wrong-value',
+                                    'account %s (%s %s) under -X %s --now %s shows %s; the least stale conversion paths give one of %s'
+                                    % (a, q, c, qr.tgt, dstr(qr.day), show_h(got), sorted(q * x for x in r[2])), show_h(got),
+                                    ' or '.join(str(q * x) for x in sorted(r[2]))))
+            if bad:
+                break
+            want = {c: q for c, q in want.items() if q != 0}
+            if exact and got != want:
+                what = 'wrong-value'
+                if len(hs) == 1 and hs[0][1] != qr.tgt:
+                    r = o_via(facts, hs[0][1], qr.tgt, D)
+                    if r is None or got == {hs[0][1]: hs[0][0]}:
+                        what = 'unconverted' if r is not None else 'converted-without-path'
+                    elif got in [{qr.tgt: hs[0][0] * x} for x in r[3]]:
+                        what = 'staler-path-taken'
+                bad.append(('via-X:' + what,
+                            'account %s under -X %s --now %s shows %s; converting every amount along the path whose stalest price is freshest (each pair at its latest price not after that date) gives %s'
+                            % (a, qr.tgt, dstr(qr.day), show_h(got), show_h(want)), show_h(got), show_h(want)))
+                break
+        return bad
     if qr.kind in ('bal', 'balmemo') and qr.tgt:
         D = qr.day * 86400
         pre = 'memo:parse-time-lookup' if qr.kind == 'balmemo' else 'bal-X'
@@ -885,7 +1031,11 @@ def show_h(d):
 def run(ctx, n_override=None):
     rng = ctx.rng
     res = lib.Result()
-    res.rule = ('(plus: journals whose check / assert / amount-expression / automated-transaction look-ups are interleaved '
+    res.rule = ('(plus: price graphs with SEVERAL paths between two commodities - triangle, diamond, diamond with cross link, square with diagonal, K4, '
+                'triangle with tail, pentagon with chord; 1-3 quotes per pair in either direction, pairs first quoted in shuffled order, times of day, one journal in six with '
+                'deliberately shared days - observed through bal -X at 4-6 dates; rows whose conversion meets two least-weight paths are judged by the oracle only; '
+                'non-trivial there = a conversion made where at least two simple paths exist) '
+                '(plus: journals whose check / assert / amount-expression / automated-transaction look-ups are interleaved '
                 'with the quotes of a 2-4 link chain, a later quote on the first, a middle or the last link) '
                 'about 30% of the journals declare a default commodity (D directive, the target of -V); also bal --percent -X/-V over subsets of the holdings (flat and not), bal -X/-V without --flat, with --depth 1, with --unround; '
                 'journals of 1-30 recorded prices (P lines with and without time of day, per-unit / total / virtual / zero '
@@ -899,10 +1049,14 @@ def run(ctx, n_override=None):
     queries = []
     journals = []
     ninter = max(48, nj // 4)
-    for ji in range(nj + nmemo + ninter):
+    nvia = max(96, nj // 3)
+    for ji in range(nj + nmemo + ninter + nvia):
         memo = nj <= ji < nj + nmemo
-        inter = ji >= nj + nmemo
-        if inter:
+        inter = nj + nmemo <= ji < nj + nmemo + ninter
+        via = ji >= nj + nmemo + ninter
+        if via:
+            j = gen_multipath(rng, ji - nj - nmemo - ninter)
+        elif inter:
             j = gen_interleaved(rng, ji - nj - nmemo)
         else:
             j = gen_journal(rng, memo, multi=(not memo and ji % 8 == 3))
@@ -914,6 +1068,11 @@ def run(ctx, n_override=None):
         res.count('entries:%d' % len(j.facts()))
         cand = j.cand
         tree = j.comms
+        if via:
+            late = [d for d in cand if d >= j.days[len(j.days) // 2]]
+            for d in sorted(set(rng.sample(late, min(len(late), 4)) + rng.sample(cand, 2))):
+                queries.append(Query(j, 'via', path=j.path, tgt=rng.choice(tree), day=d))
+            continue
         if inter:
             for t in j.memo_ts:
                 queries.append(Query(j, 'balmemo', path=j.path, tgt=t, day=j.memo_day))
@@ -983,7 +1142,22 @@ def run(ctx, n_override=None):
             # a parent that has a single child and no posting of its own is not printed
             cm = {k: v for k, v in cm.items() if k in ci or ':' in k or k == 'TOTAL'}
         case = dict(journal=qr.j.text() if qr.kind != 'balfut' else open(qr.path).read(), args=qr.args[2:], raw=qr.raw[:4000])
-        if ci != cm:
+        if qr.kind == 'via' and isinstance(ci, dict) and isinstance(cm, dict):
+            # rows whose conversion meets a tie between least-weight paths: the model's choice among
+            # them is not ledger's (boost's heap order, not modelled); only the oracle judges them
+            tied = getattr(qr, 'tie_rows', set())
+            res.count('via:rows-tie-not-compared', len(tied))
+            res.count('via:rows-compared', len(cm) - len(tied))
+            ci_k = {k: v for k, v in ci.items() if k not in tied}
+            cm_k = {k: v for k, v in cm.items() if k not in tied}
+            facts = qr.j.facts()
+            np_ = [o_via(facts, c, qr.tgt, qr.day * 86400) for c in qr.j.comms if c != qr.tgt]
+            res.count('via:most-paths:%d' % max([r[0] for r in np_ if r] or [0]))
+            if any(r and r[0] > 1 and len(r[3]) > 1 for r in np_):
+                res.count('via:choice-changes-the-rate')
+            if ci_k != cm_k:
+                res.disagreements.append(dict(name='C10/via-X', case=case, impl=diffview(ci_k, cm_k)[0], model=diffview(ci_k, cm_k)[1]))
+        elif ci != cm:
             res.disagreements.append(dict(name='C10/' + qr.kind + ('-X' if getattr(qr, 'tgt', None) else ''),
                                           case=case, impl=diffview(ci, cm)[0], model=diffview(ci, cm)[1]))
         # non-trivial: a conversion happened / a price is listed
@@ -995,6 +1169,8 @@ def run(ctx, n_override=None):
             nontriv = any(ci.get(a, '') != show(o_plain(hs)) for a, hs in acc.items())
         elif isinstance(ci, list):
             nontriv = len(ci) > 0 and (qr.kind != 'reg' or any(r.split('|')[0] != show(o_plain([h])) for r, h in zip(ci, [(q, c, l) for a, d, q, c, l in qr.j.postings() if a == 'W:w'])))
+        if qr.kind == 'via':        # several paths to choose from, and a conversion made
+            nontriv = nontriv and any(o_via(qr.j.facts(), c, qr.tgt, qr.day * 86400, count_only=True) > 1 for c in qr.j.comms if c != qr.tgt)
         if nontriv:
             res.nontrivial.add(case['journal'] + ' '.join(case['args']))
             res.count('nontrivial:' + qr.kind)
